@@ -106,6 +106,57 @@ def positive_fixtures():
         loop_sharing_rule(m, r, scope=())
         assert [f.func for f in r.findings] == ["core.z.refresh"], ("loop sharing rule", [f.func for f in r.findings])
 
+    # R-ORIENT-X: a (base, quote) pair of the pool taken apart outside the Uniswap package, once through a forwarding
+    # helper without consulting the orientation (must be reported) and once under an orientation test (must not)
+    from .rules.orientx import orientation_rule
+    with tempfile.TemporaryDirectory() as d:
+        for pk in ("", "uniswap", "other"):
+            os.makedirs(os.path.join(d, "demeter", pk), exist_ok=True)
+            open(os.path.join(d, "demeter", pk, "__init__.py"), "w").write("")
+        open(os.path.join(d, "demeter", "uniswap", "market.py"), "w").write(textwrap.dedent(FIXTURE_ORIENT_POOL))
+        open(os.path.join(d, "demeter", "other", "market.py"), "w").write(textwrap.dedent(FIXTURE_ORIENT_USER))
+        m = Model(d)
+        r = Result("T", "selftest")
+        n = orientation_rule(m, r)
+        assert [f.func for f in r.findings] == ["User.bad"] and n["sites"] == 3, ("orientation rule", n, [f.func for f in r.findings])
+
+
+FIXTURE_ORIENT_POOL = """
+class UniLpMarket:
+    def _convert_pair(self, a0, a1):
+        return (a1, a0) if self._is_token0_quote else (a0, a1)
+
+    def collect_fee(self, p):
+        t0, t1 = self.raw(p)
+        base_get, quote_get = self._convert_pair(t0, t1)
+        return base_get, quote_get
+"""
+
+FIXTURE_ORIENT_USER = """
+from ..uniswap.market import UniLpMarket
+
+
+class User:
+    def __init__(self, pool: UniLpMarket):
+        self._pool: UniLpMarket = pool
+
+    def fwd(self, p):
+        a, b = self._pool.collect_fee(p)
+        return a, b
+
+    def bad(self, p):
+        x, y = self.fwd(p)
+        self.eth += x
+        self.sq += y
+
+    def good(self, p):
+        x, y = self._pool.collect_fee(p)
+        if self._pool.quote_token == self.weth:
+            x, y = y, x
+        self.eth += x
+        self.sq += y
+"""
+
 
 def main():
     with tempfile.TemporaryDirectory() as d:
